@@ -91,9 +91,9 @@ def real_run(code, types, values, env):
             stack.push(MichelsonType.match(ty).from_micheline_value(v))
         except Exception as e:   # noqa   the interpreter cannot even represent this (well-typed) input value
             return ('input-error', i, [type(e).__name__] + [str(a)[:120] for a in e.args][-3:])
-    prog = MichelineSequence.match(code)
     del _PROBE[:]
     try:
+        prog = MichelineSequence.match(code)          # loading a well-typed program must not fail either
         prog.execute(stack, [], ctx)
     except Timeout:
         raise
@@ -250,7 +250,8 @@ def describe(ins, S):
         n = 2 if S and S[0] in (R.T_STRING, R.T_BYTES) else 1
     if prim == 'PUSH':
         try:
-            return f'PUSH {tstr(R.parse_type(args[0]))}'
+            rec = ' (Lambda_rec)' if len(args) > 1 and args[1][0] == 'P' and args[1][1] == 'Lambda_rec' else ''
+            return f'PUSH {tstr(R.parse_type(args[0]))}{rec}'
         except R.RefError:
             return 'PUSH ?'
     ops = ' : '.join(tstr(t) for t in S[:n]) if S != R.FAILED else ''
